@@ -250,7 +250,7 @@ def generate(t):
         if o["visible"] is not None:
             s += f", with requireVisible {o['visible']}"
         if o["ego"]:
-            s += f", with visibleDistance {o['vdist']}"
+            s += f", with visibleDistance {o['vdist']}" + ("" if two else ", with viewRayCount (12, 8)")  # few rays: canSee stays cheap
             if o["vang"]:
                 s += f", with viewAngle {o['vang'][0]} deg" if two else f", with viewAngles ({o['vang'][0]} deg, {o['vang'][1]} deg)"
         lines.append(s)
